@@ -61,7 +61,9 @@ claim("C13",
       "the caller's value and nothing else re-seeds, the exact-rescale chain of the Maxwell-Boltzmann draw, that every in-place "
       "velocity update adds a value that is zero on padding rows, and the COM-removal mode validation / momentum expressions / "
       "kinetic-energy restoration.",
-      "Does not decide the realised temperature or momenta magnitudes. Assumes mass, mass_inverse and force are zero on padding rows.",
+      "The COM projection and the initial draw are decided by their postconditions, obtained by interpreting the routines with exact arithmetic on a padded batch (sa/npsym.py): zero "
+      "linear / angular momentum per molecule, kinetic energy restored, padding at rest, every molecule's own temperature exactly Temp. "
+      "Does not decide the realised temperature distribution or momenta magnitudes over draws. Assumes mass, mass_inverse and force are zero on padding rows.",
       "DESIGN.md section 4, C13")
 
 claim("C17",
@@ -122,7 +124,8 @@ claim("C15",
 
 claim("C01",
       "sibling def-chain agreement between energy-side and derivative-side integral pipelines, truth-table comparison of special-case predicates, "
-      "affine analysis of finite-difference stencils, CFG force-assembly rule, sympy derivative of the symbolically interpreted core-core energy and of all 27 local-frame integrals",
+      "affine analysis of finite-difference stencils, CFG force-assembly rule, sympy derivative of the symbolically interpreted core-core energy and of all 27 local-frame integrals, "
+      "abstract interpretation of the rotation / contraction routines over symbolic tensors (sa/npsym.py) with polynomial-identity tests",
       "Decides that the analytical derivative code differentiates the same parameter pipeline the energy code evaluates, that the "
       "core-core special cases and method dispatch agree on every element pair, that every semi-numerical stencil is central, "
       "restoring and differenced in the right order, that forces are minus the gradient of the reported energy with a clean "
@@ -130,8 +133,12 @@ claim("C01",
       "analytical core-core gradient equals the derivative of the core-core energy for all six (method, X-H) cases and that every "
       "element of the local-frame derivative kernel der_TETCILF (22 heavy-heavy, 4 heavy-hydrogen, 1 hydrogen-hydrogen) is d/dr of the "
       "corresponding energy integral (element interpreter + sympy differentiation, 45-digit identity test at random rational points).",
-      "Does not decide numerical agreement of whole-energy finite differences, the rotation of the derivative to the molecular frame or "
-      "the excited-state Z-vector gradient. Trusted: sympy, masked straight-line and element interpreters.",
+      "Also decided (third pass, all by interpreting the source over symbolic arrays, sa/npsym.py): the derivative of the rotated integrals is the product-rule derivation of the "
+      "polynomial the energy routine stores at the same packed index (110 exact identities, three directions), the frame derivative assembled from the quaternion builder's gradient "
+      "branch and the Jacobian of the normalisation is d/du of the energy-side frame (27 identities), e1b_x/e2a_x are the energy's core-electron map, and the density contraction "
+      "contract_ao_derivatives_with_density equals the derivative of the package's own elec_energy(fock(hcore)) at fixed density for RHF and UHF on a padded batch (exact rationals). "
+      "Does not decide numerical agreement of whole-energy finite differences (truncation error of the finite-difference routines, SCF convergence error), the excited-state Z-vector "
+      "gradient, or the overlap derivative beyond its stencil. Trusted: sympy, the interpreters (validated by seeded variants and regression mutants).",
       "DESIGN.md section 4, C01")
 
 claim("C04",
@@ -160,7 +167,10 @@ claim("C06",
       "the Klopman-Ohno interaction and rotational invariance are embedded; the two axis-orientation bits are fitted on two integrals and then "
       "predict the other twenty); block reshape/transpose chains keep axis meaning; no pure tensor result is discarded; the h_pp floor. "
       "Not decided: Slater overlap branches, the rho0/rho1/rho2 *values* produced by the secant solvers, the rotation to the molecular frame "
-      "(C02), parameter CSV contents. Trusted: sympy, 45-digit evaluation at random rational points for the identity tests.",
+      "(C02), parameter CSV contents. Third pass: both Fock builders (RHF, UHF; sp symbolic, spd with exact rationals and the d-shell W terms switched off) equal the textbook NDDO "
+      "operator F = H + sum P (mn|ls) - P^s (ml|ns) on a padded symbolic batch, the core Hamiltonian assembly (U, partners' core-electron blocks, 1/2 (beta+beta) S, Kbeta) and the "
+      "energy functionals (elec_energy closed/open shell, isolated-atom energy) equal their definitions -- all by abstract interpretation of the source (sa/npsym.py). "
+      "Trusted: sympy, 45-digit evaluation at random rational points for the identity tests.",
       "DESIGN.md section 4, C06")
 
 claim("C14",
@@ -169,7 +179,9 @@ claim("C14",
       "(6 pipeline edges), that Etot/Hf/excitation/dispersion are assembled in the right order exactly once, that every gap is "
       "e[nocc]-e[nocc-1] of its own spin block, and that charges and dipole are computed from the reported density with the "
       "method's orbital count and the same core charges.",
-      "Does not decide numerical identities (eigenvalues of the reported Fock matrix, dipole vs charges). Trusted: alias map of names.",
+      "Energy bookkeeping (total_energy, heat_formation, elec_energy), atomic charges (closed/open shell, 4/9 orbitals) and the ground-state dipole are decided by interpreting the "
+      "routines over symbolic arrays on padded batches (sa/npsym.py) -- including a batch whose atom count is a multiple of the batch size although the molecules differ. "
+      "Does not decide numerical identities (eigenvalues of the reported Fock matrix, dipole vs charges). Trusted: alias map of names, sympy.",
       "DESIGN.md section 4, C14")
 
 claim("C02",
@@ -197,6 +209,8 @@ claim("C18",
       "producer, however the guard is spelled; that the guard operands are the documented predicates (non-increasing adjacent "
       "comparison, valence electrons minus charge, N/2 +- (mult-1)/2, 0 <= nocc <= norb, the jcall table); and that check_input runs "
       "before parsing and the solver factory before the first SCF iteration.",
+      "The validators that can be interpreted (check_input exhaustively on 2x3 arrays over {0,1,2}; the electron-count guards of Parser.forward and the COM-mode validation on concrete "
+      "requests, sa/npsym.py) are decided that way, independent of the spelling of the guard; the flow-graph exploration decides the other rows and is the fallback. "
       "Does not decide the second sentence of C18 (finite results or a flag for every accepted input): that quantifies over floating point "
       "values of exp/sqrt/division chains. Atom spellings are enumerated; a re-spelling outside the enumerated forms is reported as a missing test. "
       "Trusted: CFG builder, meaning of .any()/.all()/torch.equal/isinstance.",
@@ -204,7 +218,7 @@ claim("C18",
 
 claim("C19",
       "def-chain analysis of the pair-list predicate (radial-form recognition, power/cutoff agreement), masked-call discipline for the overlap routines, "
-      "affine distance taint + frozen threshold inventory, element-wise pattern check of the core-electron blocks, sympy limits of the symbolically interpreted core-core energy",
+      "affine distance taint + frozen threshold inventory, core-electron blocks of the interpreted rotation routine (sa/npsym.py), sympy limits of the symbolically interpreted core-core energy",
       "Decides the cutoff clause completely at the source level (the kept set is the open ball of the configured radius in the raw coordinate "
       "difference, nothing else filters pairs, default radius is infinite for any molecule) and the structural necessary conditions of "
       "additivity: no other distance switch exists apart from the inventoried overlap truncation at 40 bohr, overlap routines never see "
@@ -224,19 +238,22 @@ claim("C16",
       "reported energies are the contiguous lowest block of an ascending eigh, orbital energies stay paired with re-ordered orbitals across "
       "geometry sequences, and AO-basis guesses are orthonormalised. Because convergence is judged by the residual only, the answer cannot "
       "depend on the starting guess beyond the tolerance.",
-      "Does not decide that the sigma build equals the CIS/RPA matrix, that no lower root is missed (root skipping near degeneracy), "
+      "Third pass: the sigma build IS decided -- makeA_pi_batched(T) = J[T] - 1/2 K[T] for a non-symmetric transition density (polynomial identity in T) and "
+      "matrix_vector_product_batched = (e_a - e_i) V + [2 (ia|jb) - (ij|ab)] V (A) / the transposed contraction (B), chunked and unchunked, on a uniform batch with hydrogen packing "
+      "(sa/npsym.py, exact rationals). Does not decide that no lower root is missed (root skipping near degeneracy), "
       "orthonormality to machine precision, or RPA <= CIS: those need the dense matrix as an oracle. Stagnation exits are inventoried, not judged. "
       "Trusted: eigh ordering, guard extraction.",
       "DESIGN.md section 4, C16")
 
 claim("C05",
       "representative-row rule decided by guard extraction + interprocedural requirement propagation over the resolved call graph; spin-flatten expansion lint; "
-      "masked-occupation def-use rule; exhaustive small-integer re-interpretation of the Parser index formulas",
+      "masked-occupation def-use rule; Parser.forward interpreted on concrete padded batches (sa/npsym.py)",
       "Decides four structural necessary conditions of batch transparency for every batch composition at once: no per-molecule size or "
       "occupation is taken from row 0 for the whole batch unless a uniformity fact about that same quantity holds there (locally or on "
       "every call chain from the entry points; same species does not discharge nocc), per-molecule vectors follow the (m0a, m0b, m1a, ...) "
       "order of spin-flattened matrices, fractional occupations never leak onto padding orbitals, and the flattened block indices "
-      "(maskd, mask, mask_l, atom_molid, pair_molid, idxi/idxj) address row m's own storage for all molsize <= 4, m < 3.",
+      "(maskd, mask, mask_l, atom_molid, pair_molid, idxi/idxj) and the aligned per-pair records (atomic numbers, distance, unit vector) equal their definitions on ~40 interpreted "
+      "padded batches (1-3 molecules, every real-atom count, finite and infinite cutoff).",
       "Does not decide numerical equality of alone-vs-batched results, batch-coupled control flow inside converged tolerances (DIIS resets, "
       "shared Newton loops), or same-element atom permutation covariance. Two chains (nonadiabatic drivers, XL-ESMD) are discharged by "
       "protocol facts confirmed at run time and inventoried in the rule. Trusted: name-based recognition of per-molecule quantities, "
